@@ -129,6 +129,18 @@ def one_history(res, rng, files, api):
         if api == 'top':
             events, exc = drive(lambda: top.kevents(open_stream(f['data'])))
             tables = (top.threads_pids, top.pids_names)
+        elif api == 'dicts' and f['kind'] == 'v2' and refilled is None and i % 2:
+            # the version-specific entry points are public as well: parse_v2() on a stream positioned behind the magic,
+            # directly or through the parser's version table
+            def by_version():
+                s = io.BytesIO(f['data'])
+                magic = s.read(4)
+                parser = KdBufParser(tp, pn)
+                gen_ = parser.parse_v2(s) if i % 4 == 1 else parser.versions[magic](s)
+                return (e for e in gen_ if hasattr(e, 'debugid'))
+            events, exc = drive(by_version)
+            tables = (tp, pn)
+            res.count('parses_through_the_version_entry_points')
         else:
             events, exc = drive(lambda: (e for e in KdBufParser(tp, pn).parse(open_stream(f['data']))
                                          if hasattr(e, 'debugid')))
@@ -369,6 +381,7 @@ def run(ctx):
     res.require('histories_with_reuse', 1)
     res.require('related_map_histories', 10)
     res.require('interleaved_parses', 10)
+    res.require('parses_through_the_version_entry_points', 10)
     res.require('histories_on_one_refilled_stream_object', 10)
     res.require('threaded_parses', 6)
     res.require('deferred_parses_checked', 10)
